@@ -99,18 +99,18 @@ func c20HookPath(name, id string) string {
 
 type c20World struct {
 	*world.Base
-	k8s      client.Client
-	mc       *Metacontroller
-	object   map[string]string            // model: name -> spec id of the stored CompositeController ("" = absent)
-	running  map[string]string            // model: name -> spec id of the instance that must be running
-	inst     map[string]*parentController // instance seen running for name (to detect restarts / no-ops)
-	queues   map[*parentController]*world.RecQueue
-	stopped  []*parentController
+	k8s          client.Client
+	mc           *Metacontroller
+	object       map[string]string            // model: name -> spec id of the stored CompositeController ("" = absent)
+	running      map[string]string            // model: name -> spec id of the instance that must be running
+	inst         map[string]*parentController // instance seen running for name (to detect restarts / no-ops)
+	queues       map[*parentController]*world.RecQueue
+	stopped      []*parentController
 	stoppedPaths map[string]bool
-	findings []mc.Finding
-	hist     []string
-	names    []string
-	specs    []string
+	findings     []mc.Finding
+	hist         []string
+	names        []string
+	specs        []string
 }
 
 func newC20World() *c20World {
